@@ -194,3 +194,59 @@ extern "C" {
     AWS_CATCH(-1)
   }
 }
+
+// ------------------------------------------------------------------------------------------------ LayoutBuilder
+// The Form-driven builder of property C14: the Form arrives as JSON, the commands are those of the C++ API.
+#include "awkward/layoutbuilder/LayoutBuilder.h"
+
+extern "C" {
+  long aws_lb_new(const char* form_json, long initial, double resize) {
+    AWS_TRY
+    ak::FormPtr form = ak::Form::fromjson(std::string(form_json));
+    auto b = std::make_shared<ak::LayoutBuilder>(form, ak::ArrayBuilderOptions((int64_t)initial, resize));
+    return awsim::put(awsim::K_LAYOUTBUILDER, b);
+    AWS_CATCH(0)
+  }
+
+  // cmd: 0 null, 1 boolean(i), 2 int64(i), 3 float64(d), 4 complex(d, d2), 5 string(s), 6 bytestring(s),
+  //      7 begin_list, 8 end_list, 9 index(i), 10 tag(i)
+  int aws_lb_cmd(long h, int cmd, long i, double d, double d2, const char* s, long slen) {
+    AWS_TRY
+    auto b = awsim::get<ak::LayoutBuilder>(h, awsim::K_LAYOUTBUILDER);
+    switch (cmd) {
+      case 0: b->null(); break;
+      case 1: b->boolean(i != 0); break;
+      case 2: b->int64((int64_t)i); break;
+      case 3: b->float64(d); break;
+      case 4: b->complex(std::complex<double>(d, d2)); break;
+      case 5: b->string(std::string(s, (size_t)slen)); break;
+      case 6: b->bytestring(std::string(s, (size_t)slen)); break;
+      case 7: b->begin_list(); break;
+      case 8: b->end_list(); break;
+      case 9: b->index((int64_t)i); break;
+      case 10: b->tag((int8_t)i); break;
+      default: throw awsim::HarnessError("aws_lb_cmd: unknown command");
+    }
+    return 1;
+    AWS_CATCH(0)
+  }
+
+  long aws_lb_snapshot(long h) {
+    AWS_TRY
+    auto b = awsim::get<ak::LayoutBuilder>(h, awsim::K_LAYOUTBUILDER);
+    return awsim::put(awsim::K_CONTENT, b->snapshot());
+    AWS_CATCH(0)
+  }
+
+  // what: 0 vm_source, 1 form json, 2 length
+  long aws_lb_text(long h, int what, char* out, long cap) {
+    AWS_TRY
+    auto b = awsim::get<ak::LayoutBuilder>(h, awsim::K_LAYOUTBUILDER);
+    std::string s;
+    if (what == 0) s = b->vm_source();
+    else if (what == 1) s = b->form()->tojson(false, false);
+    else s = std::to_string(b->length());
+    return awsim::copy_out(s, out, cap);
+    AWS_CATCH(-1)
+  }
+}
